@@ -38,6 +38,16 @@ class MFile:
         return MFile(self.content, self.size, self.complete, self.text, self.exists)
 
 
+def det_urandom(w, n):
+    """deterministic, distinct per call; with w.urandom_prefix the leading bytes (= the sub-directory Disk.filename picks) are fixed"""
+    w.urandom_ctr = getattr(w, 'urandom_ctr', 0) + 1
+    out = bytes([(w.urandom_ctr * 17 + i) % 256 for i in range(n)])
+    pre = getattr(w, 'urandom_prefix', None)
+    if pre:
+        out = (pre + out[len(pre):])[:n]
+    return out
+
+
 class ModelFS:
     def __init__(self, world):
         self.w = world
@@ -548,8 +558,7 @@ class World(BaseWorld):
         self.event('sleep', str(d))
 
     def urandom(self, n):
-        self.urandom_ctr += 1
-        return bytes([(self.urandom_ctr * 17 + i) % 256 for i in range(n)])
+        return det_urandom(self, n)
 
     # ---- databases
     def db_for(self, path):
